@@ -10,7 +10,10 @@ import (
 	"encoding/json"
 	"fmt"
 	"os"
+	"path/filepath"
 	"strings"
+
+	"ariga.io/atlas/sql/migrate"
 
 	"verifharness/internal/hx"
 )
@@ -289,6 +292,9 @@ func runC12(e *Env) error {
 	}
 	e.Res.Rule = fmt.Sprintf("exhaustive: files of 1..%d statements x partial progress k in [0,n) x {none, change/delete/swap/insert at every index, truncate to every length} x {alone, followed by a second file} + custom-delimiter files whose commands move across a statement boundary (same concatenated text) + two failures with two tail edits (fail at k, resume fails at k2 > k, third run); 4 attempts each (fail at k, edited+rehashed resume, two more runs); non-trivial = k>=1; distinct by (old,k,new,second)", maxN)
 	e.Res.Exhaustive = e.Replay == ""
+	if e.Replay == "" && e.Atlas != "" {
+		c12CLI(e)
+	}
 	type job struct{ c c12Case }
 	parallel(e.Workers, len(cases), func(i int) {
 		c := cases[i]
@@ -352,4 +358,90 @@ func runC12(e *Env) error {
 		}
 	})
 	return nil
+}
+
+// c12CLI: the same property through the real binary and the real revision table (ent storage):
+// a file of n statements fails at statement k under --tx-mode none; then
+//   - the not yet applied tail is edited to another statement count (shorter / longer): the resumed run
+//     must succeed, the revision row must read applied = total = the NEW count with the new file hash,
+//     `migrate status` must report nothing pending and a further `migrate apply` must be a clean no-op;
+//   - the applied part is edited: the run must be refused and the revision row stay byte-identical.
+func c12CLI(e *Env) {
+	type variant struct {
+		name    string
+		n, k    int
+		newTail []string // statements replacing stmts[k:]
+		prefix  bool     // edit the applied part instead
+	}
+	vs := []variant{
+		{"tail-shorter", 3, 1, []string{"INSERT INTO journal VALUES (0, 9);"}, false},
+		{"tail-longer", 3, 1, []string{"INSERT INTO journal VALUES (0, 7);", "INSERT INTO journal VALUES (0, 8);", "INSERT INTO journal VALUES (0, 9);"}, false},
+		{"tail-same-count", 3, 2, []string{"INSERT INTO journal VALUES (0, 9);"}, false},
+		{"tail-longer-late", 4, 3, []string{"INSERT INTO journal VALUES (0, 8);", "INSERT INTO journal VALUES (0, 9);"}, false},
+		{"prefix-edited", 3, 2, nil, true},
+	}
+	for vi, v := range vs {
+		dir := filepath.Join(e.Work, fmt.Sprintf("c12cli-%d", vi))
+		os.RemoveAll(dir)
+		os.MkdirAll(dir, 0o755)
+		stmts := []string{"CREATE TABLE journal (f int, i int);"}
+		for i := 1; i < v.n; i++ {
+			stmts = append(stmts, fmt.Sprintf("INSERT INTO journal VALUES (0, %d);", i))
+		}
+		bad := append([]string{}, stmts...)
+		bad[v.k] = "INSERT INTO no_such_table VALUES (0, 0);"
+		write := func(ss []string) {
+			writeMigrationDir(filepath.Join(dir, "m"), []dirFile{{"1_f.sql", strings.Join(ss, "\n") + "\n"}})
+		}
+		write(bad)
+		args := []string{"migrate", "apply", "--dir", "file://m", "--url", "sqlite://db.sqlite", "--tx-mode", "none"}
+		o1 := runAtlas(e, dir, nil, args...)
+		d1 := dumpDB(filepath.Join(dir, "db.sqlite"))
+		e.Res.Count("c12cli:"+v.name, true, "cli:"+v.name)
+		rep := map[string]any{"variant": v.name, "statements": v.n, "failed_at": v.k}
+		if o1.Code == 0 || len(d1.Revs) != 1 || d1.Revs[0].Applied != v.k {
+			e.Res.Violate("failing-input", "setup", fmt.Sprintf("CLI %s: the first run should stop at statement %d: exit %d revs %+v", v.name, v.k, o1.Code, d1.Revs), "Props.C12 CLI", rep)
+			continue
+		}
+		if v.prefix {
+			edited := append([]string{}, stmts...)
+			edited[1] = "INSERT INTO journal VALUES (0, 99);"
+			write(edited)
+			o2 := runAtlas(e, dir, nil, args...)
+			d2 := dumpDB(filepath.Join(dir, "db.sqlite"))
+			if o2.Code == 0 || !strings.Contains(o2.Stderr+o2.Stdout, "changed") {
+				e.Res.Violate("failing-input", "changed-prefix-not-refused", fmt.Sprintf("CLI: an applied statement was edited but `migrate apply` exits %d: %s", o2.Code, trunc(o2.Stderr+o2.Stdout, 200)), "Props.C12 CLI", rep)
+			} else if d1.canon(true) != d2.canon(true) {
+				e.Res.Violate("failing-input", "refused-but-history-touched", fmt.Sprintf("CLI: the refused run changed the database:\n%s\nvs\n%s", trunc(d1.canon(true), 400), trunc(d2.canon(true), 400)), "Props.C12 CLI", rep)
+			}
+			os.RemoveAll(dir)
+			continue
+		}
+		fixed := append(append([]string{}, stmts[:v.k]...), v.newTail...)
+		write(fixed)
+		o2 := runAtlas(e, dir, nil, args...)
+		d2 := dumpDB(filepath.Join(dir, "db.sqlite"))
+		switch {
+		case o2.Code != 0:
+			e.Res.Violate("failing-input", "tail-edit-not-resumed", fmt.Sprintf("CLI %s: only the tail was edited but the resumed run fails: %s", v.name, trunc(o2.Stderr+o2.Stdout, 300)), "Props.C12 CLI", rep)
+		case len(d2.Revs) != 1 || d2.Revs[0].Applied != len(fixed) || d2.Revs[0].Total != len(fixed) || d2.Revs[0].Error != "":
+			e.Res.Violate("failing-input", "revision-stale-after-tail-edit", fmt.Sprintf("CLI %s: the file now has %d statements and all of them ran, the revision row reads %+v", v.name, len(fixed), d2.Revs), "Props.C12.tail_edit_resumes (CLI)", rep)
+		default:
+			// the recorded hash is the one of the edited file
+			if ld, err := migrate.NewLocalDir(filepath.Join(dir, "m")); err == nil {
+				if sum, err := ld.Checksum(); err == nil {
+					if h, err := sum.SumByName("1_f.sql"); err == nil && h != d2.Revs[0].Hash {
+						e.Res.Violate("failing-input", "revision-stale-after-tail-edit", fmt.Sprintf("CLI %s: the revision keeps the hash of the old file (%s, file %s)", v.name, d2.Revs[0].Hash, h), "Props.C12.tail_edit_resumes (CLI)", rep)
+					}
+				}
+			}
+			st := runAtlas(e, dir, nil, "migrate", "status", "--dir", "file://m", "--url", "sqlite://db.sqlite", "--format", "{{ .Status }}")
+			o3 := runAtlas(e, dir, nil, args...)
+			d3 := dumpDB(filepath.Join(dir, "db.sqlite"))
+			if strings.TrimSpace(st.Stdout) != "OK" || o3.Code != 0 || d3.canon(true) != d2.canon(true) {
+				e.Res.Violate("failing-input", "re-executed-after-completion", fmt.Sprintf("CLI %s: after the completed resume: status %q, another apply exits %d (%s), database changed: %v", v.name, strings.TrimSpace(st.Stdout), o3.Code, trunc(o3.Stderr, 200), d3.canon(true) != d2.canon(true)), "Props.C12 CLI", rep)
+			}
+		}
+		os.RemoveAll(dir)
+	}
 }
